@@ -186,6 +186,7 @@ type probeRec struct {
 	leaks     []leak
 	inputSize uint32
 	scratch   string
+	hookMeta  string
 }
 
 var (
@@ -247,28 +248,23 @@ func metaList(visit func(func(k, v []byte))) []wire.KV {
 	return out
 }
 
+// metaLeak: every pair of a dirtying request or handler has a key starting with "D-"; none may show up,
+// and the pairs this request set must all be there.
 func metaLeak(got, want []wire.KV, http bool) string {
-	if http {
-		have := map[string]string{}
-		for _, kv := range got {
-			if strings.HasPrefix(kv.K, "D-") {
-				return fmt.Sprintf("foreign pair %q=%q", kv.K, kv.V)
-			}
-			have[kv.K] = kv.V
+	have := map[string][]string{}
+	for _, kv := range got {
+		if strings.HasPrefix(kv.K, "D-") {
+			return fmt.Sprintf("pair %q=%q of a previous request is present (all pairs: %q)", kv.K, kv.V, got)
 		}
-		for _, kv := range want {
-			if have[kv.K] != kv.V {
-				return fmt.Sprintf("pair %q=%q missing (have %q)", kv.K, kv.V, have[kv.K])
-			}
+		have[kv.K] = append(have[kv.K], kv.V)
+	}
+	for _, kv := range want {
+		found := false
+		for _, v := range have[kv.K] {
+			found = found || v == kv.V
 		}
-		return ""
-	}
-	if len(got) != len(want) {
-		return fmt.Sprintf("got %q want %q", got, want)
-	}
-	for i := range got {
-		if got[i] != want[i] {
-			return fmt.Sprintf("got %q want %q", got, want)
+		if !found {
+			return fmt.Sprintf("pair %q=%q of this request is missing (have %q)", kv.K, kv.V, have[kv.K])
 		}
 	}
 	return ""
@@ -316,14 +312,15 @@ func inspectCtx(rec *probeRec, sym string, ctx erpc.ReadCtx) {
 
 func outputLeaks(rec *probeRec, sym string, out erpc.Message, wantSeq int32, wantMtype byte, wantMethod string, wantPipe []byte) {
 	add := func(what, detail string) { rec.leaks = append(rec.leaks, leak{what, sym, detail}) }
-	if out.Seq() != wantSeq {
-		add("output-seq", fmt.Sprintf("output seq %d want %d", out.Seq(), wantSeq))
+	// header fields: either still at their default or already those of this request
+	if out.Seq() != wantSeq && out.Seq() != 0 {
+		add("output-seq", fmt.Sprintf("output seq %d, this request has %d", out.Seq(), wantSeq))
 	}
-	if out.Mtype() != wantMtype {
-		add("output-mtype", fmt.Sprintf("output mtype %d want %d", out.Mtype(), wantMtype))
+	if out.Mtype() != wantMtype && out.Mtype() != 0 {
+		add("output-mtype", fmt.Sprintf("output mtype %d, expected 0 or %d", out.Mtype(), wantMtype))
 	}
-	if out.ServiceMethod() != wantMethod {
-		add("output-service-method", fmt.Sprintf("output service method %q want %q", out.ServiceMethod(), wantMethod))
+	if out.ServiceMethod() != wantMethod && out.ServiceMethod() != "" {
+		add("output-service-method", fmt.Sprintf("output service method %q, this request has %q", out.ServiceMethod(), wantMethod))
 	}
 	if st := out.Status(); st != nil && !st.OK() {
 		add("output-status", "output status "+st.String())
@@ -337,8 +334,8 @@ func outputLeaks(rec *probeRec, sym string, out erpc.Message, wantSeq int32, wan
 	if b := out.Body(); b != nil {
 		add("output-body", fmt.Sprintf("output body already %s", clip(bodyStr(b))))
 	}
-	if ids := out.XferPipe().IDs(); !bytes.Equal(ids, wantPipe) {
-		add("output-pipe", fmt.Sprintf("output pipe %q want %q", ids, wantPipe))
+	if ids := out.XferPipe().IDs(); !bytes.Equal(ids, wantPipe) && len(ids) != 0 {
+		add("output-pipe", fmt.Sprintf("output pipe %q, this request came with %q", ids, wantPipe))
 	}
 	if out.Size() != 0 {
 		add("output-size", fmt.Sprintf("output size already %d", out.Size()))
@@ -367,6 +364,7 @@ func (plug) PostReadCallHeader(ctx erpc.ReadCtx) *erpc.Status {
 		rec.hook = true
 		rec.ctxPtr = ptrOf(ctx)
 		rec.inputSize = ctx.Input().Size()
+		rec.hookMeta = strings.Replace(fmt.Sprintf("%q", metaList(ctx.VisitMeta)), tk, "<tk>", -1)
 		noteCtx(rec.ctxPtr)
 		inspectCtx(rec, "seen-at-header-hook", ctx)
 		deadlineLeak(rec, ctx)
@@ -701,6 +699,8 @@ type link struct {
 	baseOut    []KV
 	baseSize   uint32
 	baseSeq    int32
+	baseCodec  byte
+	baseMeta   string
 	name       string
 }
 
@@ -791,8 +791,10 @@ func (c *caseRun) probeCallOn(l *link, n int, baseline bool) bool {
 				c.add("reply-meta", sym, "reply metadata at the caller: "+d)
 			}
 		}
-		if cc := cmd.InputBodyCodec(); cc != codec.ID_PLAIN {
-			c.add("reply-codec", sym, fmt.Sprintf("reply body codec at the caller %d want %d", cc, codec.ID_PLAIN))
+		if cc := cmd.InputBodyCodec(); baseline {
+			l.baseCodec = cc
+		} else if l.baseReply != nil && cc != l.baseCodec {
+			c.add("reply-codec", "differs-from-baseline", fmt.Sprintf("reply body codec at the caller is %d, before any dirtying it was %d", cc, l.baseCodec))
 		}
 	}
 	if !rec.hook || !rec.handler {
@@ -822,17 +824,11 @@ func (c *caseRun) probeCallOn(l *link, n int, baseline bool) bool {
 	if sp.Mtype != erpc.TypeReply || sp.Seq != cmd.Output().Seq() {
 		c.add("reply-frame-header", sym, fmt.Sprintf("frame mtype %d seq %d, call seq %d", sp.Mtype, sp.Seq, cmd.Output().Seq()))
 	}
-	if sp.Method != "" {
-		c.add("reply-frame-service-method", sym, fmt.Sprintf("reply frame carries service method %q", sp.Method))
-	}
 	if sp.Stat != nil {
 		c.add("reply-frame-status", sym, "reply frame carries status "+statStr(sp.Stat))
 	}
 	if d := metaLeak(sp.Meta, []wire.KV{{K: "P-Ok", V: "1"}}, c.p.HTTP); d != "" {
 		c.add("reply-frame-meta", sym, "reply frame metadata: "+d)
-	}
-	if sp.Codec != codec.ID_PLAIN {
-		c.add("reply-frame-codec", sym, fmt.Sprintf("reply frame codec %d want %d", sp.Codec, codec.ID_PLAIN))
 	}
 	if !bytes.Equal(sp.Body, replyOf(probeBody)) {
 		c.add("reply-frame-body", sym, fmt.Sprintf("reply frame body %s", clip(string(sp.Body))))
@@ -845,9 +841,13 @@ func (c *caseRun) probeCallOn(l *link, n int, baseline bool) bool {
 		l.baseReply = ff
 		l.baseSize = rec.inputSize
 		l.baseSeq = cmd.Output().Seq()
+		l.baseMeta = rec.hookMeta
 	} else if l.baseReply != nil {
 		if d := cmpSnap(ff, l.baseReply, "differs-from-baseline"); d != nil {
 			c.add("reply-frame-"+d.Field, "differs-from-baseline", fmt.Sprintf("reply frame field %s is %s, before any dirtying it was %s", d.Field, d.Got, d.Want))
+		}
+		if rec.hook && rec.hookMeta != l.baseMeta && !c.p.HTTP {
+			c.add("input-meta", "differs-from-baseline", fmt.Sprintf("input metadata at the header hook %s, the same request before any dirtying showed %s", clip(rec.hookMeta), clip(l.baseMeta)))
 		}
 		// the size recorded on the input message: comparable when the seq has as many digits and the pipe does not compress
 		sq := cmd.Output().Seq()
